@@ -185,6 +185,20 @@ func c12hRun(fx c12hFixture) func(x *h.Ctx, c c12hCase) {
 		firstMatch := map[int]int{} // canonical credential -> number of descriptors it is the first match of
 		for di, d := range ref.Descriptors {
 			sat[di] = make([]pegen.C12Sat, len(creds))
+			if d.Constraints != nil {
+				// multi-path fields: per-path outcomes in path order, measured by the reference
+				for fi := range d.Constraints.Fields {
+					f := &d.Constraints.Fields[fi]
+					if len(f.Path) < 2 {
+						continue
+					}
+					for _, cr := range creds {
+						if pegen.C12EarlierFailsLaterPasses(pegen.C12PathOutcomes(f, cr.view)) {
+							x.Class("multi-path:earlier-path-fails-later-path-passes")
+						}
+					}
+				}
+			}
 			first := -1
 			for ci, cr := range creds {
 				s := ref.Sat(d, cr.view, cr.facts)
